@@ -1,16 +1,17 @@
 #!/bin/sh
 # run every kept seeded change (seeded/C*/) against the quick check named in its meta.json (check_run), on /repo HEAD;
 # writes seeded/MATRIX.txt.  Applies each patch to /repo and reverts it: nothing else may use /repo meanwhile.
-out=${1:-/verif/seeded/MATRIX.txt}; : > $out
-echo "# detection matrix on /repo $(git -C /repo rev-parse --short HEAD), /verif $(git -C /verif rev-parse --short HEAD) - tools/mutant_matrix.sh" >> $out
-for d in /verif/seeded/C*/; do
+HERE=$(cd "$(dirname "$0")/.." && pwd)
+out=${1:-$HERE/seeded/MATRIX.txt}; : > $out
+echo "# detection matrix on /repo $(git -C ${MATRIX_REPO:-/repo} rev-parse --short HEAD), /verif $(git -C $HERE rev-parse --short HEAD) - tools/mutant_matrix.sh" >> $out
+for d in $HERE/seeded/C*/; do
   id=$(basename $d)
   props=$(/venv/bin/python -c "
 import json, re
 m = json.load(open('$d/meta.json'))
 toks = [t for t in m.get('check_run', '').split() if re.fullmatch(r'C[0-9][0-9]', t)]
 print(' '.join(dict.fromkeys(toks)) or m['property'])")
-  res=$(/verif/tools/try_mutant.sh $d/patch.diff $props 2>&1)
+  res=$($HERE/tools/try_mutant.sh $d/patch.diff $props 2>&1)
   if echo "$res" | grep -q PATCH-DOES-NOT-APPLY; then v=NOAPPLY
   elif echo "$res" | grep -q "^RESULT .* rc=1 "; then v=DETECTED
   elif echo "$res" | grep -q "^RESULT .* rc=2 "; then v=CHECK-ERROR
